@@ -2,7 +2,8 @@ import PymtlVerif.Driver.Sexp
 import PymtlVerif.Model.Nets
 /-! Handler `nets`: executable face of `Model/Nets.lean` for the C08/C09 correspondence checks.
 
-Request:  `nets elab (objs (sid kind host (f…) none|(lo hi))…) (par none|p …) (conns (a b at)…)
+Request:  `nets elab … (funcs ((w…) (r…) (c…))…) (bcalls (f…)…)` for designs with `@s.func` helpers, or
+          `nets elab (objs (sid kind host (f…) none|(lo hi))…) (par none|p …) (conns (a b at)…)
                      (blks (host ff ((o op)…) (r…))…)`
 Reply (one line of S-expressions):
   `(stage n) (errs E…) (loop b) (ffloop b|none) (allnets (m…)…) (headed (w m…)…) (headless (m…)…) (adj (a n…)…)`
@@ -55,12 +56,21 @@ def design? (o p c b : Sexp) : Option Design := do
   let bs ← (← tagged "blks" b).mapM blk?
   some ⟨os, ps, cs, bs⟩
 
+def func? : Sexp → Option Func
+  | .list [ws, rs, cs] => do some ⟨← ws.nats?, ← rs.nats?, ← cs.nats?⟩
+  | _ => none
+
+def hdesign? (o p c b f bc : Sexp) : Option HDesign := do
+  let D ← design? o p c b
+  let fs ← (← tagged "funcs" f).mapM func?
+  let bcs ← (← tagged "bcalls" bc).mapM Sexp.nats?
+  some ⟨D, fs, bcs⟩
+
 def showNats (xs : List Nat) : String := " ".intercalate (xs.map toString)
 
 def showErr (e : Err) : String := e.pyClass
 
-def showOutcome (D : Design) : String :=
-  let o := elaborate D
+def showOutcomeOf (D : Design) (o : Outcome) : String :=
   let E := D.edges
   let S := simple E
   let ff := match ffLoop E with
@@ -72,8 +82,13 @@ def showOutcome (D : Design) : String :=
   s!"(stage {o.stage}) (errs {" ".intercalate (o.errs.map showErr)}) (loop {b2s (hasLoop E)}) (ffloop {ff}) " ++
   s!"(allnets {allnets}) (headed {headed}) (headless {headless}) (adj {adjs})"
 
+def showOutcome (D : Design) : String := showOutcomeOf D (elaborate D)
+
 def handle (args : List Sexp) : Option String :=
   match args with
+  | [.atom "elab", o, p, c, b, f, bc] => do
+      let H ← hdesign? o p c b f bc
+      if H.wf then some (showOutcomeOf H.flatten (elaborateH H)) else none
   | [.atom "elab", o, p, c, b] => do
       let D ← design? o p c b
       if D.wf then some (showOutcome D) else none
